@@ -188,9 +188,29 @@ type biJob struct {
 type biPools struct {
 	full []ugo.Object
 	core []ugo.Object
+	// geo: short strings whose byte length, rune count and validity differ, with every small integer,
+	// for the functions that compute widths, counts and offsets from both (Pad*, Repeat, SplitN, Index*,
+	// Replace, substr-like slicing): encoded as geoBase+idx
+	geo []ugo.Object
 }
 
-func newBiPools() *biPools { return &biPools{full: gen.ArgPool(), core: gen.ArgCore()} }
+const geoBase = 1 << 20
+
+func biGeo() []ugo.Object {
+	g := []ugo.Object{}
+	for _, s := range []string{"", "a", "ab", "xyz", "é", "éé", "aé", "日本", "é\xff", "a\xe2\x82", "\xff\xfe", "😀x", "%5d|%-3s", " a b "} {
+		g = append(g, ugo.String(s))
+	}
+	for i := -2; i <= 9; i++ {
+		g = append(g, ugo.Int(i))
+	}
+	g = append(g, ugo.Bytes("éa"), ugo.Char('é'), ugo.Uint(3))
+	return g
+}
+
+func newBiPools() *biPools { return &biPools{full: gen.ArgPool(), core: gen.ArgCore(), geo: biGeo()} }
+
+func geoCount(scale int) int { return 700 * scale }
 
 // tuple i of a job: indices into full (>=0) or core (encoded as -1-idx)
 func (p *biPools) count(arity int, scale int) int {
@@ -201,16 +221,24 @@ func (p *biPools) count(arity int, scale int) int {
 	case 1:
 		return n
 	case 2:
-		return n * n
+		return n*n + geoCount(scale)
 	case 3:
-		return k*k*k + 400*scale
+		return k*k*k + 400*scale + geoCount(scale)
 	default:
-		return 1500*scale + 300*scale
+		return 1500*scale + 300*scale + geoCount(scale)
 	}
 }
 
 func (p *biPools) tuple(seed uint64, job biJob, i int, scale int) []int {
 	n, k := len(p.full), len(p.core)
+	if job.Arity >= 2 && i >= p.count(job.Arity, scale)-geoCount(scale) {
+		r := gen.NewRand(seed ^ uint64(job.Callable)*1000003 ^ uint64(i)*7919 ^ 5)
+		t := make([]int, job.Arity)
+		for j := range t {
+			t[j] = geoBase + r.Intn(len(p.geo))
+		}
+		return t
+	}
 	switch job.Arity {
 	case 0:
 		return nil
@@ -241,7 +269,9 @@ func (p *biPools) tuple(seed uint64, job biJob, i int, scale int) []int {
 func (p *biPools) args(t []int) []ugo.Object {
 	out := make([]ugo.Object, len(t))
 	for i, x := range t {
-		if x >= 0 {
+		if x >= geoBase {
+			out[i] = gen.Fresh(p.geo[x-geoBase])
+		} else if x >= 0 {
 			out[i] = gen.Fresh(p.full[x])
 		} else {
 			out[i] = gen.Fresh(p.core[-1-x])
